@@ -23,8 +23,8 @@ theorem mkdirTask_fields (t : Task) (s : State) :
   | none => simp
   | some d => simp only; split <;> simp
 
-theorem cmdLoop_no_kill (e : Env) (hk : e.killAt = none) (cs : List Cmd) (k : Nat) (fs : FS) (ran : List Nat) :
-    (cmdLoop e cs k fs ran).2.2 ≠ .killed := by
+theorem cmdLoop_no_kill (e : Env) (ign : Bool) (hk : e.killAt = none) (cs : List Cmd) (k : Nat) (fs : FS) (ran : List Nat) :
+    (cmdLoop e ign cs k fs ran).2.2 ≠ .killed := by
   induction cs generalizing k fs ran with
   | nil => simp [cmdLoop]
   | cons c cs ih =>
@@ -43,10 +43,17 @@ theorem runBody_skipped (i : Nat) (t : Task) (dry : Bool) (e : Env) (s : State) 
     · split <;> rfl
     · split <;> rfl
 
+/-- a `run` that reports "up to date": the check returned no error … -/
+theorem run_skipped_noerr {i : Nat} {t : Task} (ht : pr.tasks[i]? = some t) (e : Env) (s : State)
+    (h : (invoke cfg H pr i .run e s).2.skipped = true) : checkErr t e s.files = false := by
+  cases hce : checkErr t e s.files with
+  | false => rfl
+  | true => rw [invoke_run_err cfg H pr ht e s hce] at h; cases h
+
 /-- a `run` reports "up to date" only when the check said so -/
 theorem run_skipped {i : Nat} {t : Task} (ht : pr.tasks[i]? = some t) (e : Env) (s : State)
     (h : (invoke cfg H pr i .run e s).2.skipped = true) : (isUpToDate H pr t false e.now s).2 = true := by
-  rw [invoke_run cfg H pr ht] at h
+  rw [invoke_run cfg H pr ht e s (run_skipped_noerr cfg H pr ht e s h)] at h
   by_cases hu : ((isUpToDate H pr t false e.now s).2 && !interrupted t e) = true
   · simp only [Bool.and_eq_true] at hu
     exact hu.1
@@ -57,7 +64,7 @@ theorem run_skipped {i : Nat} {t : Task} (ht : pr.tasks[i]? = some t) (e : Env) 
 theorem run_skipped_cond {i : Nat} {t : Task} (ht : pr.tasks[i]? = some t) (e : Env) (s : State)
     (h : (invoke cfg H pr i .run e s).2.skipped = true) :
     ((isUpToDate H pr t false e.now s).2 && !interrupted t e) = true := by
-  rw [invoke_run cfg H pr ht] at h
+  rw [invoke_run cfg H pr ht e s (run_skipped_noerr cfg H pr ht e s h)] at h
   by_cases hu : ((isUpToDate H pr t false e.now s).2 && !interrupted t e) = true
   · exact hu
   · rw [if_neg hu, runBody_skipped] at h
@@ -151,8 +158,8 @@ theorem runBody_effect (i : Nat) (t : Task) (e : Env) (s : State) (hp : Passes t
   have hmk := mkdirTask_fields t s
   unfold runBody
   simp only [hcond, Bool.false_eq_true, if_false]
-  cases hend : (cmdLoop e t.cmds 0 (mkdirTask t s).files []).2.2 with
-  | killed => exact absurd hend (cmdLoop_no_kill e hk _ _ _ _)
+  cases hend : (cmdLoop e t.ignoreError t.cmds 0 (mkdirTask t s).files []).2.2 with
+  | killed => exact absurd hend (cmdLoop_no_kill e _ hk _ _ _ _)
   | done =>
     refine ⟨true, ?_, ?_, ?_⟩
     · simp [hmk.1, hmk.2.2.1]
